@@ -298,6 +298,9 @@ func (e *c09Env) script(ep *farm.Endpoint, src net.Addr, req []byte, seq uint64)
 			b[4] ^= 0x40 // another controller's serial number
 			return b
 		}
+		if i%5 == 4 {
+			return append(b, make([]byte, 2000+i%900)...) // longer than the receive buffer: still just a datagram of the wrong length
+		}
 		return b[:20+i%30] // wrong length
 	}
 	switch v.(string) {
@@ -680,6 +683,69 @@ func c09(c *Ctx) {
 				}
 			}
 			e0.fm.Close()
+		}
+	}
+
+	// ---- phase 1a"": a fixed bind port that somebody else's socket holds for a while (T = 1 s): whatever the call does about it -
+	// fail at once, or wait for the port - it is back within its timeout (+ slack 0.5 s); a discovery does not add its full collection
+	// time on top of a wait
+	if !only2 && !onlyFlood && c.Batch == 0 {
+		e1 := newC09Env(c, time.Second)
+		if e1 != nil {
+			e1.slack = 500 * time.Millisecond
+			for _, b := range []behaviour{{"discovery", "broadcast", "success", 0, true}, {"silence", "broadcast", "error", 0, true}} {
+				port := freePort(bindIP)
+				squat, err := net.ListenUDP("udp4", &net.UDPAddr{IP: net.ParseIP(bindIP), Port: port})
+				if port == 0 || err != nil {
+					continue
+				}
+				go func() { time.Sleep(700 * time.Millisecond); squat.Close() }()
+				caseNo++
+				res := e1.run(b, next(), fmt.Sprintf("%s:%d", bindIP, port))
+				res.fixed = true
+				c.Res.Eval(1)
+				c.Res.DistinctKey("port-held-by-a-foreign-socket", b.name)
+				c.Res.Count("calls-on-a-fixed-port-held-by-a-foreign-socket-for-0.7s", 1)
+				w := map[string]any{"behaviour": b.name, "T_ms": 1000, "elapsed_ms": res.elapsed.Milliseconds(), "err": res.err}
+				switch {
+				case res.hung:
+					c.Res.Violate("C09:port-held:hang", fmt.Sprintf("%s from a fixed bind port that a foreign socket held for 0.7 s: the call did not return", b.name), w, caseNo)
+				case res.elapsed > time.Second+500*time.Millisecond && c09Stalls.total(res.t0, res.t1) < 200*time.Millisecond:
+					c.Res.Violate("C09:port-held:late-return", fmt.Sprintf("%s from a fixed bind port that a foreign socket held for the first 0.7 s: the call returned after %v, the timeout is 1 s (+0.5 s slack)", b.name, res.elapsed.Round(time.Millisecond)), w, caseNo)
+				}
+				squat.Close()
+				time.Sleep(50 * time.Millisecond)
+			}
+			// three calls on one fixed port, the third joining while the second has its turn and nobody else is waiting: it waits its turn
+			// like the second did (all three controllers are silent: each call takes one timeout)
+			{
+				port := freePort(bindIP)
+				bind := fmt.Sprintf("%s:%d", bindIP, port)
+				results := make([]c09Result, 3)
+				var wg sync.WaitGroup
+				for i, at := range []time.Duration{0, 100 * time.Millisecond, 1300 * time.Millisecond} {
+					wg.Add(1)
+					go func(i int, at time.Duration, s uint32) {
+						defer wg.Done()
+						time.Sleep(at)
+						results[i] = e1.run(behaviour{"silence", "broadcast", "error", 0, true}, s, bind)
+					}(i, at, next())
+				}
+				wg.Wait()
+				caseNo++
+				c.Res.Eval(1)
+				c.Res.DistinctKey("port-queue-late-joiner")
+				c.Res.Count("port-queue:late-joiner-rounds", 1)
+				for i, res := range results {
+					if strings.Contains(res.err, "address already in use") && port != 0 {
+						// (a foreign process cannot have taken the port: the first call held it the whole time)
+						if i > 0 && !strings.Contains(results[0].err, "address already in use") {
+							c.Res.Violate("C09:port-queue:not-served-in-turn:late-joiner", fmt.Sprintf("three calls on the fixed bind port %d (started at 0, 0.1 s and 1.3 s; T = 1 s): call %d failed with %q instead of waiting its turn", port, i+1, res.err), map[string]any{"errors": []string{results[0].err, results[1].err, results[2].err}}, caseNo)
+						}
+					}
+				}
+			}
+			e1.fm.Close()
 		}
 	}
 
